@@ -63,8 +63,8 @@ Section Shapes.
           * eapply extends_trans; [exact X|]. eapply IH; eauto.
     Qed.
 
-    Lemma sw_loop_extends v c T : forall fuel state ci log m st ci' log',
-        sw_loop fuel v c tabs e T word state ci log = Ok (m, st, ci', log') -> extends PW log log'.
+    Lemma sw_loop_extends v c T acc : forall fuel state ci log m st ci' log',
+        sw_loop fuel v c tabs e T acc word state ci log = Ok (m, st, ci', log') -> extends PW log log'.
     Proof.
       induction fuel as [|fuel IH]; intros state ci log m st ci' log' H; [discriminate|].
       rewrite sw_loop_S in H.
@@ -113,8 +113,8 @@ Section Shapes.
         + injection H as _ <-. exact X.
     Qed.
 
-    Lemma subword_matches_extends v T log m log' :
-      subword_matches v tabs e T word log = Ok (m, log') -> extends PW log log'.
+    Lemma subword_matches_extends v T acc log m log' :
+      subword_matches v tabs e T acc word log = Ok (m, log') -> extends PW log log'.
     Proof.
       unfold subword_matches, subword_matches_from. intros H. bind H as E0.
       destruct a as [[[m1 s1] c1] l1]. injection H as _ <-. eapply sw_loop_extends; eauto.
